@@ -10,6 +10,7 @@ conversion, own interpolation and end clamping).
 from hypothesis import strategies as st
 
 from ..runner import Violation
+from ..guards import unchanged
 from .. import neutron_c03 as ng
 from ..refcalc_neutron import OUTPUTS
 
@@ -65,7 +66,8 @@ def check_compound(ctx, v):
     case = dict(v, kind="compound")
     kw = dict(dkw)
     kw.update(wkw)
-    got = ng.flatten(pt.neutron_scattering(obj, **kw))
+    with unchanged("c03", case, compound=obj if isinstance(obj, dict) else None, **kw):
+        got = ng.flatten(pt.neutron_scattering(obj, **kw))
     for o in OUTPUTS:
         ng.check_shape("c03:compound", o, got[o], shape, case)
     ng.compare_outputs("c03:compound", got, comp, rho, lams, case, "edep" if edep else "ordinary")
